@@ -9,6 +9,7 @@ import (
 	"encoding/json"
 	"flag"
 	"fmt"
+	"hash/fnv"
 	"os"
 	"path/filepath"
 	"regexp"
@@ -171,6 +172,8 @@ func cmdCheck(args []string) int {
 	root := fs.String("repo", repoRoot, "")
 	dump := fs.String("dump", "", "")
 	dumpall := fs.Bool("dumpall", false, "with --dump: write every query of the property and exit without solving")
+	out := fs.String("out", "", "write evidence and replay files under this directory instead of /verif")
+	nocorpus := fs.Bool("nocorpus", false, "thorough tier: skip the must-fail corpus")
 	if len(args) < 1 {
 		fmt.Println("usage: vfy check <id> [--tier quick|thorough]")
 		return 2
@@ -178,15 +181,18 @@ func cmdCheck(args []string) int {
 	id := args[0]
 	fs.Parse(args[1:])
 	repoRoot = *root
+	if *out != "" {
+		outRoot = *out
+	}
 	if t := os.Getenv("VERIF_TIER"); t != "" && *tier == "quick" {
 		*tier = t
 	}
 	seed, _ := strconv.Atoi(os.Getenv("VERIF_SEED"))
 	t0 := time.Now()
-	evPath := filepath.Join(verifRoot, "evidence", id+".json")
+	evPath := filepath.Join(outRoot, "evidence", id+".json")
 	os.MkdirAll(filepath.Dir(evPath), 0o755)
 	os.Remove(evPath)
-	os.RemoveAll(filepath.Join(verifRoot, "replays", id))
+	os.RemoveAll(filepath.Join(outRoot, "replays", id))
 
 	scope, err := loadScope(id)
 	if err != nil {
@@ -376,7 +382,13 @@ func cmdCheck(args []string) int {
 		if isKnown {
 			continue
 		}
-		rp := writeReplay(id, "subset_"+sanitize(o), map[string]interface{}{"property": id, "obligation": "subset", "detail": o, "reproduced": false,
+		short := strings.TrimPrefix(o, modPath+"/")
+		if len(short) > 80 {
+			short = short[:80]
+		}
+		hh := fnv.New32a()
+		hh.Write([]byte(o))
+		rp := writeReplay(id, fmt.Sprintf("subset_%s_%08x", sanitize(short), hh.Sum32()), map[string]interface{}{"property": id, "obligation": "subset", "detail": o, "reproduced": false,
 			"explanation": "a function in the property's cone left the verified subset (or lost its contract): its obligations can no longer be generated, so the property is undecided"})
 		violations = append(violations, fmt.Sprintf("VIOLATION property=%s replay=%s no-failing-input-found", id, rp))
 	}
@@ -423,31 +435,42 @@ func cmdCheck(args []string) int {
 	sort.Strings(notes)
 	ev := evidence{PropertyID: id, Tier: *tier, Seed: seed, Level: "proof", WallS: round3(time.Since(t0).Seconds()), Violations: len(violations)}
 	ev.Coverage = map[string]interface{}{
-		"obligations":           total - len(known),
-		"known_finding_obligations": len(known),
-		"discharged":            discharged,
-		"checker_cmd":           fmt.Sprintf("/verif/bin/vfy check %s --tier %s", id, *tier),
-		"trusted_base":          tb,
-		"functions_under_contract": fnames,
-		"obligations_by_kind":   byKind,
-		"discharged_by_backend": byBackend,
-		"path_queries":          len(qs),
-		"folded_trivially_true": trivial,
-		"solver_seconds":        round3(solverS),
-		"generation_seconds":    round3(genS),
-		"slowest_obligation":    map[string]interface{}{"name": slowest, "seconds": round3(slowestS)},
-		"slowest_path_query":    map[string]interface{}{"obligation": slowQ, "seconds": round3(slowQS), "timeout_seconds": map[string]int{"quick": 20, "thorough": 60}[*tier]},
+		"obligations":                   total - len(known),
+		"known_finding_obligations":     len(known),
+		"discharged":                    discharged,
+		"checker_cmd":                   fmt.Sprintf("/verif/bin/vfy check %s --tier %s", id, *tier),
+		"trusted_base":                  tb,
+		"functions_under_contract":      fnames,
+		"obligations_by_kind":           byKind,
+		"discharged_by_backend":         byBackend,
+		"path_queries":                  len(qs),
+		"folded_trivially_true":         trivial,
+		"solver_seconds":                round3(solverS),
+		"generation_seconds":            round3(genS),
+		"slowest_obligation":            map[string]interface{}{"name": slowest, "seconds": round3(slowestS)},
+		"slowest_path_query":            map[string]interface{}{"obligation": slowQ, "seconds": round3(slowQS), "timeout_seconds": map[string]int{"quick": 20, "thorough": 60}[*tier]},
 		"queries_retried_after_timeout": retried,
-		"smoke_checks":          smokeN,
-		"smoke_failed":          smokeBad,
-		"known_findings_hit":    known,
-		"out_of_subset":         oos,
-		"modelling_notes":       notes,
-		"bounded_standins":      boundedEv,
-		"lemma_axioms":          x.lemmaAxiomNames(),
-		"samples":               samples,
-		"extraction_drops":      "text of error/log messages; identity of error values (nil-ness, errors.Is class and wrapped bit are kept); permission bits; timing; GC; stack depth",
-		"explanation":           propExplanation[id],
+		"smoke_checks":                  smokeN,
+		"smoke_failed":                  smokeBad,
+		"known_findings_hit":            known,
+		"out_of_subset":                 oos,
+		"modelling_notes":               notes,
+		"bounded_standins":              boundedEv,
+		"lemma_axioms":                  x.lemmaAxiomNames(),
+		"samples":                       samples,
+		"extraction_drops":              "text of error/log messages; identity of error values (nil-ness, errors.Is class and wrapped bit are kept); permission bits; timing; GC; stack depth",
+		"explanation":                   propExplanation[id],
+	}
+	// thorough tier: the must-fail corpus - every recorded property-breaking change that this
+	// property's check is known to detect is applied to a scratch copy of the tree under test and
+	// must still be detected (a guard against a check that has gone vacuous)
+	if *tier == "thorough" && !*nocorpus && !broken && len(violations) == 0 {
+		mf := mustFailCorpus(id)
+		ev.Coverage["must_fail_corpus"] = mf.summary
+		for _, m := range mf.missed {
+			fmt.Printf("BROKEN must-fail: the recorded change %s is no longer detected by the check of %s\n", m, id)
+			broken = true
+		}
 	}
 	ev.Assumptions = globalAssumptions
 	data, _ := json.MarshalIndent(ev, "", " ")
@@ -486,7 +509,7 @@ func firstLines(s string, n int) string {
 }
 
 func writeReplay(id, name string, content map[string]interface{}) string {
-	dir := filepath.Join(verifRoot, "replays", id)
+	dir := filepath.Join(outRoot, "replays", id)
 	os.MkdirAll(dir, 0o755)
 	n := sanitize(name)
 	if len(n) > 120 {
@@ -546,6 +569,5 @@ func trimModel(m string) string {
 	}
 	return m
 }
-
 
 var _ *ssa.Function
